@@ -205,19 +205,39 @@ sharness! {
 /// NTPv5 answer and ONLY then - a well-formed NTPv5 server packet with a foreign client cookie,
 /// or one that arrives late, leaves it in UpgradedToV5 (so that the fallback can still happen).
 /// One header combination (server mode, synchronized), all other header octets symbolic.
+/// (Assertions and cover goals live in ONE function, assertions first: the driver replays the
+/// first playback test Kani prints, and Kani prints them in check order.)
+#[cfg(kani)]
+fn confirm_body(src: &mut Src, pre: &Pre, pkt: &[u8]) {
+    let acts = collect(src.handle_incoming(pkt, th::ts_from_raw(1), th::ts_from_raw(2)));
+    let after_t = tokio::time::Instant::now();
+    let post = sh::state(src).protocol_version;
+    let may = may_match(pre, pkt);
+    let must = must_match(pre, pkt, after_t);
+    assert!(acts.n == 0, "C12: no actions");
+    assert!(matches!(post, PV::UpgradedToV5) || matches!(post, PV::V5), "C12: an upgraded association only moves to V5 on incoming packets");
+    if !may {
+        assert!(matches!(post, PV::UpgradedToV5), "C12: a packet that does not answer the pending request confirmed the upgrade");
+    }
+    if must {
+        assert!(matches!(post, PV::V5), "C12: the first matching NTPv5 answer confirms the upgrade");
+    }
+    kani::cover!(must && matches!(post, PV::V5), "matching NTPv5 answer confirms the upgrade");
+    kani::cover!(!may && pre.has_pending && pre.deadline >= pre.base && matches!(post, PV::UpgradedToV5), "NTPv5 packet with a foreign client cookie does not confirm");
+    kani::cover!(!may && pre.has_pending && origin_field(pkt) == pre.pending_id && matches!(post, PV::UpgradedToV5), "late NTPv5 answer does not confirm");
+}
+
 sharness! {
     #[kani::unwind(30)]
     fn c12_confirm() {
         frozen_clock();
-        let (mut src, pre) = any_source(PvClass::V5Family);
+        let (mut src, pre0) = any_source(PvClass::V5Family);
         let mut p = any_pkt5();
-        kani::assume(matches!(pre.pv, PV::UpgradedToV5));
+        kani::assume(matches!(pre0.pv, PV::UpgradedToV5));
+        let pre = Pre { pv: PV::UpgradedToV5, ..pre0 };
         sh::set_protocol_version(&mut src, PV::UpgradedToV5);
         p.set_hdr(0x2C, 0, 0, 0b001, b'9');
-        let (may, must, _marker, post) = incoming_body(&mut src, &pre, p.bytes());
-        kani::cover!(must && matches!(post, PV::V5), "matching NTPv5 answer confirms the upgrade");
-        kani::cover!(!may && pre.has_pending && pre.deadline >= pre.base && matches!(post, PV::UpgradedToV5), "NTPv5 packet with a foreign client cookie does not confirm");
-        kani::cover!(!may && pre.has_pending && origin_field(p.bytes()) == pre.pending_id && matches!(post, PV::UpgradedToV5), "late NTPv5 answer does not confirm");
+        confirm_body(&mut src, &pre, p.bytes());
     }
 }
 
